@@ -489,8 +489,26 @@ static void driverD(Run04& r) {
     doSchedule(set, 1, thrower, 1);
     firstFollower = r.alloc(nFollow);
     doSchedule(set, N == 0 ? 3 : s.preApi, firstFollower, nFollow);
-    while (!set.canceled()) vrt::sleepUs(30);
+    bool noCancel = false;
+    while (!set.canceled()) {
+      if (set.outstanding() == 0 && g_throwStamp[thrower].load(std::memory_order_relaxed) != 0 && !set.canceled()) {
+        noCancel = true; // every task (the thrower included) has completed and the set is still not cancelled
+        break;
+      }
+      vrt::sleepUs(30);
+    }
     r.flag(kFExcQueued);
+    if (noCancel) {
+      vrt::violation("a task threw, all tasks have completed, and the set is not cancelled: the exception did not cancel it", J().kv("followersRun", g_mon.started.load() - 1), "exception-no-cancel");
+      r.flag(kFSkipVerdict);
+      r.openGates();
+      try {
+        set.wait();
+      } catch (const VEx&) {
+      }
+      g_sentinel.unwatch();
+      return;
+    }
   } else {
     // bulk: the throwing functor is run inline by scheduleBulk (set or pool over its load factor), all workers held
     if (N > 0) r.holdWorkers(static_cast<int>(N));
@@ -510,6 +528,9 @@ static void driverD(Run04& r) {
       r.flag(kFThrowerNotRun);
     } else {
       r.flag(kFExcBulk);
+    }
+    if (!set.canceled() && direct < 0 && g_mon.ran[thrower].load() != 0) {
+      vrt::violation("a functor run inline by scheduleBulk threw, the exception was captured, and the set is not cancelled", J(), "exception-no-cancel");
     }
     if (!set.canceled()) {
       // nothing was captured (direct propagation or thrower still queued): nothing to check here
